@@ -747,7 +747,7 @@ def map_walk_stage(rep, tcfg, what, prefix, T, nkeys, mode, ksz, vsizes, maxel, 
     hist_stage(rep, nm, ["map-run"], "map", "MapTrace.tla", tcfg, wf, "full", what)
 
 
-def map_builtin_stage(rep, tcfg, what, prefix, T, nkeys, num, depth, mask=3):
+def map_builtin_stage(rep, tcfg, what, prefix, T, nkeys, num, depth, mask=3, probes=None):
     """Walks executed with the production digester (pooled, CircleHash + BLAKE3) whose first-level digest is masked through the
     verif hook: real first-level collisions with real deeper digests.  Digests are unknown to the model: content only."""
     nm = "%s-builtin%d" % (prefix, T)
@@ -757,7 +757,8 @@ def map_builtin_stage(rep, tcfg, what, prefix, T, nkeys, num, depth, mask=3):
                            "MC_MapWalk T=%d %d keys, built-in digester with masked first level" % (T, nkeys), {"cfg": {"T": T, "limit": 255}}, nm, num, depth)
     base = len(rep.distinct)
     rep.distinct.update(range(base, base + wn))
-    hist_stage(rep, nm, ["map-run", "-builtinmask", str(mask)], "map", "MapTrace.tla", tcfg, wf, "full", what)
+    cmd = (probe_cmd("map-run", probes, rep) if probes else ["map-run"]) + ["-builtinmask", str(mask)]
+    hist_stage(rep, nm, cmd, "map", "MapTrace.tla", tcfg, wf, "edge" if probes else "full", what)
 
 
 def map_fan_stage(rep, tcfg, what, prefix, wrap=False):
@@ -1411,6 +1412,8 @@ def check_C17(rep):
     # short growth-only walks with element sizes on the edges (an element at the inline limit at the tail of a slab,
     # an underflowing trailing slab): tail rebalance / merge of the map bulk builder
     map_stream_stage(rep, "c17", "MapTrace_C17.cfg", what)
+    # sources driven with the built-in (pooled) digester whose first level is masked: real first-level collisions in the bulk builder
+    map_builtin_stage(rep, "MapTrace_C17.cfg", what, "c17", 256, 24, 20 if quick else 300, 40 if quick else 80, mask=3, probes="batch,copy")
     for (depth, num) in ([(6, 150), (9, 150)] if quick else [(5, 1500), (7, 2500), (9, 2500), (12, 1500)]):
         nm = "c17-map-streams%d" % depth
         wf, wn = sim_histories(rep, "MC_MapWalk.tla", "MC_MapWalk.cfg",
